@@ -245,6 +245,7 @@ fn decmap(m: &QMap) -> String {
 }
 
 const PRELUDE_FMT: &str = "commodity X\n  format 1 X\n\ncommodity Y\n  format 1 Y\n\ncommodity W\n  format 1 W\n\n2020/01/01 declare commodities\n  Z  0 X\n  Z  0 Y\n  Z  0 W\n\n";
+const PRELUDE_ALIAS: &str = "commodity X\n  format 1.00 X\n  alias xx\n\ncommodity Y\n  note n\n  alias yy\n\ncommodity W\n  ; c\n  alias ww\n\n";
 const PRELUDE: &str = "2020/01/01 declare commodities\n  Z  0 X\n  Z  0 Y\n  Z  0 W\n\n";
 
 fn judge(cx: Cx, sp: Spelling, t: &T) -> (String, Outcome) {
@@ -258,7 +259,9 @@ fn judge(cx: Cx, sp: Spelling, t: &T) -> (String, Outcome) {
             // evaluated twice: with the commodities merely seen, and with every commodity declared with a 0-decimal-place format
             // (an expression's value is its arithmetic value: a display format must not round it)
             let mut out = Outcome::pass("eval/unset");
-            for (pn, prelude) in [("", PRELUDE), ("under-0dp-format/", PRELUDE_FMT)] {
+            for (pn, prelude) in [("", PRELUDE), ("under-0dp-format/", PRELUDE_FMT), ("via-alias/", PRELUDE_ALIAS)] {
+                // third pass: every commodity written by its alias (declared after a `format` line): same commodity, same value
+                let text = if prelude == PRELUDE_ALIAS { text.replace('X', "xx").replace('Y', "yy").replace('W', "ww") } else { text.clone() };
                 let got: Result<std::collections::BTreeMap<String, rust_decimal::Decimal>, String> = oka::with_ledger(&[(oka::ROOT, prelude)], oka::ROOT, None, |r| {
                     let (l, ctx) = r.expect("prelude must load");
                     l.eval(ctx, &text, &EvalContext { date: oka::date(2024, 1, 1), exchange: None }).map(|a| oka::amount_to_decmap(&a)).map_err(|e| format!("{:?}", e))
